@@ -56,10 +56,11 @@
 (*           symmetric positive definite, condition number from the exact  *)
 (*           inverse (closed form, verified by TLC: H Hinv = I)            *)
 (*  lauchli  the (n+1) x n Laeuchli matrix: a row of ones and eps I,       *)
-(*           eps = 2^-k (q = <<0>>: ones first, <<1>>: ones last); the     *)
-(*           classical example on which an orthogonalisation that is not   *)
-(*           backward stable loses orthogonality like u cond^2; condition  *)
-(*           number sqrt(n + eps^2) / eps, bounded by sqrt(n + 1) 2^k      *)
+(*           diag(c_j) 2^-k (p = c, q[1] = 0: ones first, 1: last; q[2] =  *)
+(*           1: rows mixed by an integer reflector, scale (v'v));          *)
+(*           the classical example on which an orthogonalisation that is   *)
+(*           not backward stable loses orthogonality like u cond^2;        *)
+(*           condition number sqrt(n + eps^2) / eps <= sqrt(n + 1) / eps   *)
 (* For these classes the case carries the exact condition number and   *)
 (* the orthogonality tolerance of the promised orthogonal factors is       *)
 (* OrthK * u * cond * m (u = 2^-53), never looser than the general one:    *)
@@ -179,8 +180,9 @@ Num(g_) ==
          IN MMul(Refl(g_.q), MMul(E, Refl(g_.r)))
     [] g_.cls = "hilbert" -> Mat(g_.n, g_.n, LAMBDA i, j : 420 \div (i + j - 1))
     [] g_.cls = "lauchli" ->
-         Mat(g_.m, g_.n, LAMBDA i, j : IF g_.q[1] = 0 THEN (IF i = 1 THEN Pow2(g_.k) ELSE IF i = j + 1 THEN 1 ELSE 0)
-                                       ELSE (IF i = g_.m THEN Pow2(g_.k) ELSE IF i = j THEN 1 ELSE 0))
+         LET L == Mat(g_.m, g_.n, LAMBDA i, j : IF g_.q[1] = 0 THEN (IF i = 1 THEN Pow2(g_.k) ELSE IF i = j + 1 THEN g_.p[j] ELSE 0)
+                                                ELSE (IF i = g_.m THEN Pow2(g_.k) ELSE IF i = j THEN g_.p[j] ELSE 0))
+         IN IF g_.q[2] = 0 THEN L ELSE MMul(Refl(TLCEval([i \in 1..g_.m |-> IF i = 2 THEN -2 ELSE 1])), L)   \* orthogonal mixing of the rows
 
 Den(g_) ==
   CASE g_.cls = "spd" -> Pow2(2 * g_.k * (g_.n - 1))
@@ -291,8 +293,10 @@ IllCondGens ==
        v \in {TLCEval([i \in 1..m |-> 0]), TLCEval([i \in 1..m |-> 1])},
        w \in {TLCEval([i \in 1..n |-> 1]), TLCEval([i \in 1..n |-> IF i = 1 THEN 1 ELSE IF i = 2 THEN -2 ELSE 0])}}
     : m \in {mm \in Sizes : mm >= n /\ mm <= n + 1}} : n \in Sizes \ {1}}
-LauchliGens == {G("lauchli", n + 1, n, <<>>, <<v>>, <<>>, e) :
-                  n \in {nn \in Sizes : nn >= 2 /\ nn + 1 <= N}, v \in {0, 1}, e \in (IF Level = 1 THEN {10, 16, 20} ELSE {8, 10, 13, 16, 20, 22})}
+LauchliGens == {G("lauchli", n + 1, n, SubSeq(c, 1, n), <<v, h>>, <<>>, e) :
+                  n \in {nn \in Sizes : nn >= 2 /\ nn + 1 <= N}, v \in {0, 1}, h \in {0, 1},
+                  c \in (IF Level = 1 THEN {<<3, 3, 3>>, <<3, 5, 7>>} ELSE {<<1, 1, 1>>, <<3, 3, 3>>, <<5, 5, 5>>, <<3, 5, 7>>, <<7, 5, 3>>, <<5, 7, 3>>}),
+                  e \in (IF Level = 1 THEN {14, 18, 20} ELSE {8, 10, 12, 14, 16, 18, 20})}
 HilbertGens == {G("hilbert", n, n, <<>>, <<>>, <<>>, 0) : n \in Sizes \ {1}}
 
 WellFormed(g_) ==
@@ -375,7 +379,7 @@ MaxAbsS(q) == MaxInts(TLCEval([i \in 1..Len(q) |-> Abs(q[i])]))
 MinAbs(q) == MaxAbsS(q) - MaxInts(TLCEval([i \in 1..Len(q) |-> MaxAbsS(q) - Abs(q[i])]))
 CondKnown(g_) == g_.cls \in {"illcond", "hilbert", "lauchli"}
 (* the condition number as the symbolic term  a * b * 2^e2  (sqrt = FALSE) or  sqrt(a * b) * 2^e2  (sqrt = TRUE): *)
-(*  lauchli  sqrt(n + 1) * 2^k  >=  sqrt(n + eps^2) / eps   (upper bound, exact to a factor sqrt(1 + 1/n))        *)
+(*  lauchli  sqrt((n + 1) / min c^2) * 2^k  >=  sigma_max / sigma_min   (sigma_max^2 <= n + 1, sigma_min >= min c 2^-k) *)
 (*  illcond  2-norm condition number  max|d| * (1 / min|d|)                                                      *)
 (*  hilbert  Frobenius condition number  sqrt(||H||_F^2 * ||H^-1||_F^2)   (scaling by 420 cancels)               *)
 CondTerm(g_) ==
@@ -385,7 +389,7 @@ CondTerm(g_) ==
     [] g_.cls = "hilbert" ->
          [a |-> RSumSeq(TLCEval([t \in 1..(g_.n * g_.n) |-> LET x == HilbertR(g_.n)[((t - 1) \div g_.n) + 1][((t - 1) % g_.n) + 1] IN RMul(x, x)])),
           b |-> RInt(SumSq(HilbertInv(g_.n))), sqrt |-> TRUE, e2 |-> 0]
-    [] g_.cls = "lauchli" -> [a |-> RInt(g_.n + 1), b |-> ROne, sqrt |-> TRUE, e2 |-> g_.k]
+    [] g_.cls = "lauchli" -> [a |-> Rat(g_.n + 1, MinAbs(g_.p) * MinAbs(g_.p)), b |-> ROne, sqrt |-> TRUE, e2 |-> g_.k]
     [] OTHER -> [a |-> ROne, b |-> ROne, sqrt |-> FALSE, e2 |-> 0]
 (* safety factor of the orthogonality tolerance  OrthK * 2^-53 * cond * m  *)
 OrthK == 32
@@ -498,8 +502,8 @@ KnowledgeOK ==
        /\ MMul(Refl(g.r), Refl(g.r)) = MScale(ReflScale(g.r) * ReflScale(g.r), Ident(g.n))
        /\ \A i \in 1..g.n : g.p[i] > 0 /\ g.p[i] <= g.p[1]
        /\ MinAbs(g.p) = 1 /\ g.p[1] = Pow2(g.k)
-  /\ g.cls = "lauchli" =>                                   \* A'A = J + eps^2 I  (numerators: 4^k J + I), eigenvalues n + eps^2 and eps^2
-       g.k <= 14 => MMul(Tr(Num(g)), Num(g)) = Mat(g.n, g.n, LAMBDA i, j : Pow2(g.k) * Pow2(g.k) + (IF i = j THEN 1 ELSE 0))
+  /\ (g.cls = "lauchli" /\ g.q[2] = 0) =>                                \* A'A = J + diag(eps_j^2)  (numerators: 4^k J + diag(c_j^2)), eigenvalues n + eps^2 and eps^2
+       (g.k > 14 \/ MMul(Tr(Num(g)), Num(g)) = Mat(g.n, g.n, LAMBDA i, j : Pow2(g.k) * Pow2(g.k) + (IF i = j THEN g.p[i] * g.p[i] ELSE 0)))
   /\ g.cls = "hilbert" =>
        /\ RMatMul(HilbertR(g.n), TLCEval([i \in 1..g.n |-> TLCEval([j \in 1..g.n |-> RInt(HilbertInv(g.n)[i][j])])]))
             = TLCEval([i \in 1..g.n |-> TLCEval([j \in 1..g.n |-> IF i = j THEN ROne ELSE RZero])])
